@@ -6,6 +6,7 @@ import (
 	"fmt"
 	"go/token"
 	"go/types"
+	"os"
 	"sort"
 	"strings"
 	"unicode"
@@ -785,6 +786,7 @@ func init() {
 				}
 			}
 			n := map[string]int{}
+			tiCtx = c
 			hasFact := func(f *ssa.Function, b *ssa.BasicBlock, pred func(condFact) bool) bool {
 				for _, fa := range Facts(c, f).At(b) {
 					if pred(fa) {
@@ -829,16 +831,28 @@ func init() {
 								for _, ins := range gb.Instrs {
 									if call, isC := ins.(*ssa.Call); isC && call.Common().StaticCallee() == st.f {
 										sitesN++
-										pctHere := hasFact(g, gb, func(fa condFact) bool {
-											bo, ok := fa.Cond.(*ssa.BinOp)
-											if !ok || bo.Op != token.EQL || !fa.Val {
-												return false
-											}
-											k, ok := constInt(bo.Y)
-											return ok && k == '%'
-										})
+										pctHere := hasFact(g, gb, isPctFact(c))
 										if !hasFact(g, gb, callFact("remainingIsInvalidPercentEncoded", true)) && !pctHere {
-											ok = false
+											// … or the enclosing helper is itself only called with the test's answer for that flag
+											up := holdsUpward(c, g, gb, 2, func(facts []condFact, root func(ssa.Value) ssa.Value) bool {
+												isPct := isPctFact(c)
+												for _, fa := range facts {
+													if !fa.Val {
+														continue
+													}
+													v := root(fa.Cond)
+													if truthImplies(v, "remainingIsInvalidPercentEncoded", 0) || truthImpliesFact(c, v, isPct, 0) {
+														return true
+													}
+												}
+												return false
+											})
+											if !up {
+												if os.Getenv("WUDEBUG") != "" {
+													fmt.Fprintf(os.Stderr, "consumers: site in %s not covered\n", g.String())
+												}
+												ok = false
+											}
 										}
 									}
 								}
@@ -1052,6 +1066,83 @@ func truthImplies(v ssa.Value, name string, depth int) bool {
 	return false
 }
 
+// truthImpliesFact: v being true implies a branch fact accepted by pred — v is such a condition itself, or a merge
+// (the lowering of &&) each of whose edges is the constant false, comes from a block where such a fact holds, or is
+// again such a value.
+func truthImpliesFact(c *Ctx, v ssa.Value, pred func(condFact) bool, depth int) bool {
+	if depth > 3 {
+		return false
+	}
+	if pred(condFact{Cond: v, Val: true}) {
+		return true
+	}
+	phi, ok := v.(*ssa.Phi)
+	if !ok {
+		return false
+	}
+	ff := Facts(c, phi.Parent())
+	for i, e := range phi.Edges {
+		if b, ok := constBool(e); ok && !b {
+			continue
+		}
+		held := false
+		for _, fa := range ff.At(phi.Block().Preds[i]) {
+			if pred(fa) {
+				held = true
+			}
+		}
+		if held || truthImpliesFact(c, e, pred, depth+1) {
+			continue
+		}
+		return false
+	}
+	return true
+}
+
+// isPctFact: a branch fact that says "this code point is '%'": the comparison itself, or a module predicate answering
+// true whose summary contains such a comparison (startsWithInvalidPercentEncoding(rest)).
+func isPctFact(c *Ctx) func(condFact) bool {
+	direct := func(fa condFact) bool {
+		bo, ok := fa.Cond.(*ssa.BinOp)
+		if !ok || !fa.Val {
+			return false
+		}
+		switch bo.Op {
+		case token.EQL:
+		default:
+			return false
+		}
+		k, ok := constInt(bo.Y)
+		return ok && k == '%'
+	}
+	return func(fa condFact) bool {
+		if direct(fa) {
+			return true
+		}
+		if call, ok := fa.Cond.(*ssa.Call); ok && fa.Val {
+			if cl := call.Common().StaticCallee(); cl != nil && c.P.InModule(cl) {
+				if ps := predicateSummary(c, cl); ps != nil {
+					for _, sf := range ps.whenTrue {
+						if direct(sf) {
+							return true
+						}
+						// runes[0] != '%' being false
+						if bo, ok := sf.Cond.(*ssa.BinOp); ok && bo.Op == token.NEQ && !sf.Val {
+							if k, ok := constInt(bo.Y); ok && k == '%' {
+								return true
+							}
+						}
+					}
+				}
+			}
+		}
+		return false
+	}
+}
+
+// tiCtx: the analysis context for truthImplies (set by the rule that uses it).
+var tiCtx *Ctx
+
 func resultImplies(cl *ssa.Function, idx int, name string, depth int) bool {
 	if len(cl.Blocks) == 0 {
 		return false
@@ -1069,6 +1160,18 @@ func resultImplies(cl *ssa.Function, idx int, name string, depth int) bool {
 			n++
 			if k, ok := constBool(r.Results[idx]); ok && !k {
 				continue
+			}
+			// the constant true, returned where the predicate is known to have answered true
+			if k, ok := constBool(r.Results[idx]); ok && k && tiCtx != nil {
+				held := false
+				for _, fa := range Facts(tiCtx, cl).At(b) {
+					if fa.Val && truthImplies(fa.Cond, name, depth+1) {
+						held = true
+					}
+				}
+				if held {
+					continue
+				}
 			}
 			if !truthImplies(r.Results[idx], name, depth+1) {
 				return false
